@@ -207,6 +207,144 @@ func refScenarioChecks(c *Ctx, env *scanEnv, scs []refScenario, formats bool) {
 	}
 }
 
+// systematicSelections: every sequence of up to `maxLen` include/exclude options over prefixes that
+// extend one another at and off component boundaries, on two fixed reference sets.
+func systematicSelections(rng *rand.Rand, maxLen, sample int) []refScenario {
+	pfx := []string{"refs/heads/f", "refs/heads/foo", "refs/heads/foo/", "refs/heads", "refs/heads/foobar", "refs/tags"}
+	refSets := [][]string{
+		{"refs/heads/f", "refs/heads/foo", "refs/heads/foobar", "refs/heads/fo", "refs/tags/foo", "refs/headstrong"},
+		{"refs/heads/foo/x", "refs/heads/foo/bar/y", "refs/heads/foobar/z", "refs/heads/f/g", "refs/tags/foo/x"},
+	}
+	type opt struct{ pol, p string }
+	var opts []opt
+	for _, pol := range []string{"include", "exclude"} {
+		for _, p := range pfx {
+			opts = append(opts, opt{pol, p})
+		}
+	}
+	var seqs [][]opt
+	var rec func(cur []opt)
+	rec = func(cur []opt) {
+		if len(cur) > 0 {
+			seqs = append(seqs, append([]opt(nil), cur...))
+		}
+		if len(cur) == maxLen {
+			return
+		}
+		for _, o := range opts {
+			rec(append(cur, o))
+		}
+	}
+	rec(nil)
+	// all sequences of length <= 2, a seeded sample of the longer ones
+	var pick [][]opt
+	for _, sq := range seqs {
+		if len(sq) <= 2 || rng.Intn(len(seqs)) < sample {
+			pick = append(pick, sq)
+		}
+	}
+	var out []refScenario
+	for i, sq := range pick {
+		sc := refScenario{ID: fmt.Sprintf("y%d", i+1), Class: "systematic", Refs: refSets[i%2]}
+		for _, o := range sq {
+			sc.Opts = append(sc.Opts, refOpt{Pol: o.pol, Kind: "prefix", Pat: o.p, Spelling: i})
+		}
+		out = append(out, sc)
+	}
+	return out
+}
+
+// forestScenarios: refgroup forests over p, p.x, p.y, p.x.z where every group has no rules, an include,
+// or an include plus an exclude, so that rule-less parents with several matching subgroups, nested
+// rule-less groups and Other buckets all occur; optionally selected through @group options.
+func forestScenarios(rng *rand.Rand, sample int) []refScenario {
+	syms := []string{"p", "p.x", "p.y", "p.x.z", "q"}
+	rules := [][][2]string{
+		nil,
+		{{"include", "refs/heads"}},
+		{{"include", "refs/tags"}},
+		{{"include", "refs"}},
+		{{"include", "refs/heads"}, {"include", "refs/tags"}},
+		{{"include", "refs"}, {"exclude", "refs/heads/foo"}},
+	}
+	refs := []string{"refs/heads/main", "refs/heads/foo", "refs/tags/v1", "refs/other/o", "refs/heads/foobar"}
+	var out []refScenario
+	n := 0
+	var rec func(i int, cur []int)
+	rec = func(i int, cur []int) {
+		if i == len(syms) {
+			// a leaf must have rules; groups absent from the configuration are simply not defined
+			leafOK := func(k int) bool {
+				hasKid := false
+				for j, s := range syms {
+					if j != k && strings.HasPrefix(s, syms[k]+".") && cur[j] >= 0 {
+						hasKid = true
+					}
+				}
+				return cur[k] != 0 || hasKid
+			}
+			any := false
+			for k := range syms {
+				if cur[k] >= 0 {
+					any = true
+					if !leafOK(k) {
+						return
+					}
+				}
+			}
+			if !any {
+				return
+			}
+			n++
+			if rng.Intn(1000) >= sample {
+				return
+			}
+			sc := refScenario{ID: fmt.Sprintf("t%d", n), Class: "forest", Refs: refs}
+			for k, sy := range syms {
+				if cur[k] <= 0 {
+					continue
+				}
+				for _, r := range rules[cur[k]] {
+					sc.Config = append(sc.Config, cfgEntry{Scope: "local", Section: "refgroup", Sub: sy, Key: r[0], Value: sp(r[1])})
+				}
+			}
+			switch n % 4 {
+			case 1:
+				sc.Opts = []refOpt{{Pol: "include", Kind: "group", Pat: "p"}}
+			case 2:
+				sc.Opts = []refOpt{{Pol: "exclude", Kind: "group", Pat: "p.x", Spelling: 0}}
+			case 3:
+				sc.Opts = []refOpt{{Pol: "include", Kind: "prefix", Pat: "refs/heads"}, {Pol: "include", Kind: "group", Pat: "p", Spelling: 1}}
+			}
+			// options naming a group that is not defined in this forest would be an error: drop them
+			defined := map[string]bool{}
+			for k, sy := range syms {
+				if cur[k] >= 0 {
+					defined[sy] = true
+					for d := sy; strings.Contains(d, "."); {
+						d = d[:strings.LastIndexByte(d, '.')]
+						defined[d] = true
+					}
+				}
+			}
+			var keep []refOpt
+			for _, o := range sc.Opts {
+				if o.Kind != "group" || defined[o.Pat] {
+					keep = append(keep, o)
+				}
+			}
+			sc.Opts = keep
+			out = append(out, sc)
+			return
+		}
+		for v := -1; v < len(rules); v++ { // -1: the group is not mentioned in the configuration
+			rec(i+1, append(cur, v))
+		}
+	}
+	rec(0, nil)
+	return out
+}
+
 func checkC06(c *Ctx) {
 	c.Ev.Level = "model_checking"
 	c.Ev.Rule = "RefsMC: all include/exclude sequences up to length 4(5) x all match vectors (coded nil-start fold = last matching rule); all prefixes x names over {a,b,/} (coded test = component-boundary definition), each pair put to the real git.PrefixFilter; all regexp ASTs to depth 2 x all strings (full-match), each put to the real git.RegexpFilter; all refgroup forests to depth 2(3) (@GROUP = members of the group); random CLI scenarios (options of every kind and spelling, refgroups from gitconfig, ROOTs) run with --show-refs and judged by TLC (RefsJudge); distinct = distinct instances / (args, refs, config)"
@@ -231,6 +369,14 @@ func checkC06(c *Ctx) {
 	for i := 0; i < n; i++ {
 		scs = append(scs, genRefScenario(rng, fmt.Sprintf("s%d", i+1), "select"))
 	}
+	if quick(c) {
+		scs = append(scs, systematicSelections(rng, 3, 250)...)
+		scs = append(scs, forestScenarios(rng, 15)...)
+	} else {
+		scs = append(scs, systematicSelections(rng, 3, 100000)...)
+		scs = append(scs, systematicSelections(rng, 4, 3000)...)
+		scs = append(scs, forestScenarios(rng, 300)...)
+	}
 	refScenarioChecks(c, env, scs, false)
 }
 
@@ -251,6 +397,11 @@ func checkC07(c *Ctx) {
 	var scs []refScenario
 	for i := 0; i < n; i++ {
 		scs = append(scs, genRefScenario(rng, fmt.Sprintf("g%d", i+1), "groups"))
+	}
+	if quick(c) {
+		scs = append(scs, forestScenarios(rng, 40)...)
+	} else {
+		scs = append(scs, forestScenarios(rng, 1000)...)
 	}
 	// however deeply nested: chains of 1..24 groups
 	for d := 1; d <= 24; d++ {
